@@ -93,6 +93,10 @@ func (q sreqCase) payload(rid int) []byte {
 		if q.a%3 == 0 {
 			return []byte{} // no payload at all: for the JSON codec that is not an argument either
 		}
+		if q.a%3 == 1 {
+			// well-formed JSON with one field of the wrong type: the codec reports the error after it has filled the others
+			return []byte(fmt.Sprintf(`{"A": %d, "B": 77, "Text": "left-behind", "Id": "not-an-int"}`, 1000+q.a))
+		}
 		return []byte(`{"Id": "not-an-int", `)
 	}
 	m := map[string]interface{}{"Id": rid, "A": q.a, "Mode": q.mode, "Text": srvTexts[q.text]}
@@ -1218,6 +1222,12 @@ func runSrv(prop string, r *common.Rand, tier string, o *common.Out, replay stri
 				vreqs := []sreqCase{mk(1, 2, 3+i, false, false), mk(2, 4+i, 5, false, false), mk(3, 6, 7+i, false, false), mk(4, 2+i, 9, true, false)}
 				vreqs[0].mode = "veto"
 				srvRunCase(o, fmt.Sprintf("poolv%d%s", i, style), 1, vreqs, []int{-1, -2, -3, 2, 1, -4, 3}, false, false)
+				o.Count("pool-reuse-schedule")
+				// a request whose arguments cannot be decoded (the codec fills some fields before it gives up), then one that
+				// leaves a field out: what the failed decode left in the argument object is nobody's argument
+				breqs := []sreqCase{mk(1, 4+3*i, 3, false, i%2 == 1), mk(2, 3+i, 9, true, false), mk(3, 2, 5+i, true, false)}
+				breqs[0].badJSON = true
+				srvRunCase(o, fmt.Sprintf("poolb%d%s", i, style), 1, breqs, []int{-1, -2, 1, -3, 2}, false, false)
 				o.Count("pool-reuse-schedule")
 				// the same after a request whose handler fails or panics - two-way and one-way: whatever path returns the
 				// objects of a failed call to their pools, each goes back once
